@@ -58,6 +58,22 @@ class IterCheck(PropCheck):
         if self.pid in ("C09", "C10") and self.profile == "mixed":
             from . import itq
             qs = [itq.gen_scenario(rng) for _ in range(200 if tier == "quick" else 3000)]
+            # those without add_signal are also run in lock-step with the L8q model (Model/IterQ.lean): every
+            # decisive load / CAS of the per-signal channels, the closed flag, the pipe calls, the callbacks
+            ls = [sc for sc in qs if not any(" add " in l for l in sc)]
+            for r in core.pmap(itq.lockstep, ls):
+                d = core.first_diff(r["model"] + [r["model_end"]], r["impl"] + [r["status"]])
+                dist["queue:lockstep"] = dist.get("queue:lockstep", 0) + 1
+                dist["queue:lockstep-drops"] = dist.get("queue:lockstep-drops", 0) + sum(1 for l in r["impl"] if l.endswith(" drop"))
+                steps += len(r["impl"])
+                if r["problems"]:
+                    failures.append({"kind": "violation", "key": "%s:itqls:%s" % (self.pid, core.digest(r["problems"][0][:40])),
+                                     "what": "iterator (queueing exfiltrator): %s" % r["problems"][0],
+                                     "payload": {"scenario": r["scenario"], "schedule": r["schedule"], "impl": r["impl"][-80:], "queue": True}})
+                elif d is not None:
+                    failures.append({"kind": "disagreement", "key": self.pid + ":itqdiff",
+                                     "what": "iterator (queueing exfiltrator) abstract step trace differs from the L8q model at line %d: model `%s` vs implementation `%s`" % d,
+                                     "payload": {"scenario": r["scenario"], "schedule": r["schedule"], "impl": r["impl"][-80:], "model": r["model"][-80:], "queue": True, "lockstep": True}})
             for r in itq.run_many(qs):
                 nq += 1
                 qp = itq.monitors(r).get(self.pid, [])
@@ -99,7 +115,7 @@ class IterCheck(PropCheck):
             uniq.setdefault(f["key"], f)
         return {"evaluations": len(results) + nq + nfe, "distinct_nontrivial": nontrivial,
                 "queue_exfiltrator_scenarios": nq, "frontend_blocks": nfe,
-                "rule": "random scenarios on the real SignalDelivery / SignalIterator (SignalOnly): 1-2 delivery threads (simulated deliveries of watched signals through the real dispatcher and action), one consumer (style A: wait/pending; style B: poll_signal with a non-blocking callback / forever with a blocking one), optional close() threads, optionally a pre-filled self-pipe; PRNG schedule at every atomic operation, send/recv and callback; compared step by step with the Lean L8 model; monitors on the implementation trace; non-trivial = at least one signal yielded; for C09/C10 additionally scenarios with the queueing exfiltrator WithRawSiginfo (repeated deliveries of one signal, unique id per delivery; implementation judged by the property monitors only: no record stranded when poll answers Pending or the consumer parks; every yielded record is one delivered record, once); plus operation-level probes of the front ends in forked children with real raise(): Signals::pending / wait / forever().next() (bursts whose wake-up bytes are multiples of the 16-byte has_signals chunk and beyond the 1024-byte flush), signal-hook-mio readiness under a real mio::Poll, signal-hook-tokio and signal-hook-async-std poll_next with a flag waker (Pending must be followed by a waker call once a signal arrives or close() is called), each compared with the L8 model run sequentially and judged by the monitors",
+                "rule": "random scenarios on the real SignalDelivery / SignalIterator (SignalOnly): 1-2 delivery threads (simulated deliveries of watched signals through the real dispatcher and action), one consumer (style A: wait/pending; style B: poll_signal with a non-blocking callback / forever with a blocking one), optional close() threads, optionally a pre-filled self-pipe; PRNG schedule at every atomic operation, send/recv and callback; compared step by step with the Lean L8 model; monitors on the implementation trace; non-trivial = at least one signal yielded; for C09/C10 additionally scenarios with the queueing exfiltrator WithRawSiginfo (repeated deliveries of one signal, bursts beyond the channel's capacity, unique id per delivery and a byte pattern over the whole siginfo_t; those without add_signal are compared step by step with the Lean L8q model at the level of channel operation halves; all are judged by the property monitors: no record stranded when poll answers Pending or the consumer parks; every yielded record is one delivered record, once); plus operation-level probes of the front ends in forked children with real raise(): Signals::pending / wait / forever().next() (bursts whose wake-up bytes are multiples of the 16-byte has_signals chunk and beyond the 1024-byte flush), signal-hook-mio readiness under a real mio::Poll, signal-hook-tokio and signal-hook-async-std poll_next with a flag waker (Pending must be followed by a waker call once a signal arrives or close() is called), each compared with the L8 model run sequentially and judged by the monitors",
                 "samples": [{"scenario": results[0]["scenario"], "trace": [l for l in results[0]["impl"] if " cas " not in l or "= ok" in l][:16]}] if results else [],
                 "traces_validated_against_impl": len(results), "steps_compared": steps, "distribution": dist,
                 "failures": list(uniq.values())}
@@ -112,6 +128,11 @@ class IterCheck(PropCheck):
         if payload.get("frontend"):
             from . import fe
             return fe.replay(self.pid, payload)
+        if payload.get("lockstep"):
+            from . import itq
+            r = itq.lockstep(payload["scenario"])
+            d = core.first_diff(r["model"] + [r["model_end"]], r["impl"] + [r["status"]])
+            return d is not None or bool(r["problems"]), "\n".join(r["impl"][-60:] + [r["status"]] + r["problems"] + (["first difference to model: %s" % (d,)] if d else []))
         if payload.get("queue"):
             from . import itq
             r = itq.run_one([l for l in payload["scenario"] if not l.startswith("seed")] + ["schedule " + " ".join(payload["schedule"])])
@@ -128,11 +149,13 @@ class IterCheck(PropCheck):
 class C09(IterCheck):
     pid = "C09"
     prop_module = "SigHook.Props.C09"
+    extra_modules = ("SigHook.Props.C09q",)
 
 
 class C10(IterCheck):
     pid = "C10"
     prop_module = "SigHook.Props.C10"
+    extra_modules = ("SigHook.Props.C10q",)
 
 
 class C11(IterCheck):
